@@ -403,7 +403,8 @@ def check_sequence(case):
             field.mpl.lightness(ax=ax, **shared["plain"])
 
     try:
-        shared = {"scalar_kw": {}, "vector_kw": {}, "plain": {}}
+        # non-empty dictionaries (an empty one is falsy: `kw or {}` would hide a missing copy)
+        shared = {"scalar_kw": {"cmap": "viridis"}, "vector_kw": {"scale": None}, "plain": {}}
         if case["scenario"] == "shared-kw":
             f1 = df.Field(mesh, nvdim=k, value=arr, valid=m1, **kw)
             f2 = df.Field(mesh, nvdim=k, value=arr, valid=m2, **kw)
@@ -415,8 +416,8 @@ def check_sequence(case):
             if not np.array_equal(got, m2):
                 raise Violation("second-plot-uses-first-mask", f"{kind}: reusing the keyword dictionaries of an earlier plot "
                                                                f"changes which cells are drawn ({int(np.sum(got != m2))} cells)")
-            require(shared["scalar_kw"] == {} and shared["vector_kw"] == {} and shared["plain"] == {}, "caller-kwargs-modified",
-                    f"{shared}")
+            require(shared == {"scalar_kw": {"cmap": "viridis"}, "vector_kw": {"scale": None}, "plain": {}},
+                    "caller-kwargs-modified", f"{shared}")
         else:
             f1 = df.Field(mesh, nvdim=k, value=arr, valid=m1.copy(), **kw)
             fig1, ax1 = plt.subplots()
